@@ -15,6 +15,21 @@ def impl():
 
 
 def apply_op(svg, op):
+    """returns (result, current object afterwards); `copy:<op>` is the copying form, the history continues on the copy"""
+    if op.startswith("copy:"):
+        t = op[5:].split()
+        if t[0] == "round_floats":
+            r = svg.round_floats(int(t[1]))
+        elif t[0] == "topicosvg":
+            r = svg.topicosvg(ndigits=int(t[1]), allow_text=t[2] == "1", drop_unsupported=t[3] == "1")
+        else:
+            r = getattr(svg, t[0])()
+        return r, r
+    r = apply_op1(svg, op)
+    return r, svg
+
+
+def apply_op1(svg, op):
     t = op.split()
     if t[0] == "round_floats":
         return svg.round_floats(int(t[1]), inplace=True)
@@ -48,11 +63,14 @@ class Run:
                 self.in_wire = treewire.encode(svg.svg_root)
                 self.none_good = svg.svg_root.nsmap.get(None) == "http://www.w3.org/2000/svg"
                 for op in self.ops:
-                    r = apply_op(svg, op)
-                    if op.startswith("checkpicosvg"):
+                    prev = svg
+                    r, svg = apply_op(svg, op)
+                    if op.startswith("copy:"):
+                        self.extras.append("")
+                    elif op.startswith("checkpicosvg"):
                         self.extras.append("\x1d".join(r))
                     elif op.startswith("resolve_nested_svgs"):
-                        self.extras.append("self" if r is svg else "None")
+                        self.extras.append("self" if r is prev else "None")
                     else:
                         self.extras.append("")
                 self.out_wire = treewire.encode(svg.toetree())
